@@ -783,6 +783,14 @@ impl Server {
                 }
             }
             
+            // Frames held back while the client was blocked come first; if that read ended in a
+            // protocol error the stream cannot be resynchronised and nothing more is read
+            frames_to_process.append(&mut conn.deferred_frames);
+            protocol_error = conn.deferred_protocol_error.take();
+            if protocol_error.is_some() {
+                return Ok(());
+            }
+            
             // Read data from connection
             match conn.read() {
                 Ok(true) => {
@@ -863,7 +871,8 @@ impl Server {
         // Second phase: process frames without the lock
         let mut responses = Vec::new();
         let mut needs_immediate_flush = false; // Track if any command needs immediate response
-        for frame in frames_to_process {
+        let mut frames = frames_to_process.into_iter();
+        while let Some(frame) = frames.next() {
             // Process each frame and increment command counter
             self.stats.total_commands_processed.fetch_add(1, Ordering::Relaxed);
             
@@ -945,6 +954,18 @@ impl Server {
                 }
             };
             responses.push(response);
+            
+            // The command blocked the client (BLPOP/BRPOP on empty lists): the rest of this read
+            // waits until the client is served or timed out, as if it had not been read yet
+            if self.is_connection_blocked(id) {
+                let rest: Vec<RespFrame> = frames.by_ref().collect();
+                let error = protocol_error.take();
+                self.connections.with_connection(id, |conn| {
+                    conn.deferred_frames = rest;
+                    conn.deferred_protocol_error = error;
+                });
+                break;
+            }
         }
         
         if let Some(msg) = protocol_error {
